@@ -56,8 +56,15 @@ pub trait Sc: geo::GeoNum + std::fmt::Debug + 'static {
     /// the lattice value v·2^sh, only if it is exact in this type (and far from over/underflow)
     fn mk(v: i64, sh: i32) -> Option<Self>;
     fn to64(self) -> f64;
+    /// -0.0 for the float types
+    fn neg_zero() -> Option<Self> {
+        None
+    }
 }
 impl Sc for f64 {
+    fn neg_zero() -> Option<f64> {
+        Some(-0.0)
+    }
     const NAME: &'static str = "f64";
     const U: f64 = 1.1102230246251565e-16; // 2^-53
     fn mk(v: i64, sh: i32) -> Option<f64> {
@@ -72,6 +79,9 @@ impl Sc for f64 {
     }
 }
 impl Sc for f32 {
+    fn neg_zero() -> Option<f32> {
+        Some(-0.0)
+    }
     const NAME: &'static str = "f32";
     const U: f64 = 5.960464477539063e-8; // 2^-24
     fn mk(v: i64, sh: i32) -> Option<f32> {
@@ -730,6 +740,34 @@ fn ring_checks<T: Sc>(sh: &mut Shard, cx: &Cx, r: &[IP], shf: i32, site: &str) {
     };
     if cx.verbose {
         println!("  {site}: ring class {rc:?}: winding_order {} is_cw {cw} is_ccw {ccw}", wo_str(wo));
+    }
+    // the same ring with some of its zeros written as -0.0 (floats): -0.0 == 0.0, the answers may not change
+    if let Some(nz) = T::neg_zero() {
+        if nz.to64().is_sign_negative() {
+            let mut alt = ls.clone();
+            let mut changed = false;
+            for (i, c) in alt.0.iter_mut().enumerate() {
+                if i % 2 == 1 || i % 3 == 0 {
+                    if c.x == T::zero() && !c.x.to64().is_sign_negative() {
+                        c.x = nz;
+                        changed = true;
+                    }
+                    if c.y == T::zero() && !c.y.to64().is_sign_negative() {
+                        c.y = nz;
+                        changed = true;
+                    }
+                }
+            }
+            if changed {
+                sh.eval(1);
+                match call(|| (alt.winding_order(), alt.is_cw(), alt.is_ccw())) {
+                    Ok(g) if g == (wo, cw, ccw) => {}
+                    Ok(g) => viol(sh, cx, "winding.negative_zero", site, "-", T::NAME, format!("{} is_cw={cw} is_ccw={ccw} (as for the ring with +0.0)", wo_str(wo)), format!("{} is_cw={} is_ccw={} for {:?}", wo_str(g.0), g.1, g.2, alt.0), ringj()),
+                    Err(p) => viol(sh, cx, "winding.panic", site, "-", T::NAME, "no panic".into(), p, json!({"at": last_panic_loc(), "ring": ringj(), "spelling": "-0.0"})),
+                }
+                sh.class("ring.spelt_with_negative_zero");
+            }
+        }
     }
     // clause: is_cw / is_ccw say the same as winding_order
     sh.eval(1);
